@@ -249,6 +249,10 @@ def certify_chains(inputs):
             if out.get("total") == "1":
                 stats["runs_certified_unconditionally"] += 1
                 stats["largest_certified_input"] = max(stats["largest_certified_input"], len(succ))
+                if out.get("specfuel") == "1":
+                    stats["runs_certified_at_specification_fuel"] = stats.get("runs_certified_at_specification_fuel", 0) + 1
+                    if out.get("region") == "1":
+                        stats["runs_certified_for_both_walks"] = stats.get("runs_certified_for_both_walks", 0) + 1
         if not (out.get("flat") == "1" and out.get("total") == "1") and out.get("firstbad", "-") != "-":
             k = kinds[int(out["firstbad"])]
             stats["first_uncertified_step_kinds"][k] = stats["first_uncertified_step_kinds"].get(k, 0) + 1
